@@ -158,3 +158,68 @@ def random_schedules(ctx, per, idx=None):
         ctx.violation("random schedule on %s (%s): %s" % (m["frame"], m["mode"], "; ".join(m["errors"])), m, tag="rand")
     ctx.add_samples(rj["samples"][:1], 1)
     return rj
+
+
+def trace_real_frames(ctx, per, idx=None, salt=0):
+    """Trace validation on real frames: random legal schedules recorded call by call (fdtrace) and checked against
+    Trace_FrameDecoder.tla with the properties as invariants.  An invariant broken by the observed values is a violation;
+    a call that is not the specified action (amounts, flags of the as-built model) is drift.  Includes a self-test of the
+    binding: the same trace with one recorded value changed must be rejected."""
+    idx = idx or corpus(ctx)
+    trace = ctx.path("fd_trace.ndjson")
+    frames_p = ctx.path("fd_trace_frames.json")
+    rep = ctx.path("fdtrace.json")
+    vh(ctx, ["fdtrace", ctx.seed * 1000 + salt, per, idx, trace, frames_p, rep], timeout=7200)
+    rj = json.load(open(rep))
+    for pr in rj["problems"][:5]:
+        ctx.violation("recording schedules on %s: %s" % (pr["frame"], pr["problem"]), pr, tag="tracerec")
+    frames = json.load(open(frames_p))["frames"]
+    if len(frames) < 10 or rj["events"] < 200:
+        raise ToolError("vacuous trace recording: %s" % rj)
+    lines = ["---- MODULE MC_TraceFD ----", "EXTENDS Trace_FrameDecoder",
+             "FramesDef == <<\n  " + ",\n  ".join(frame_tla(f) for f in frames) + "\n>>",
+             "CutsDef == [i \\in 1..Len(FramesDef) |-> 0..FrameLen(FramesDef[i])]", "===="]
+    mod = ctx.path("MC_TraceFD.tla")
+    with open(mod, "w") as f:
+        f.write("\n".join(lines) + "\n")
+    cfg = ctx.path("MC_TraceFD.cfg")
+    consts = {"Frames": "<- FramesDef", "Cuts": "<- CutsDef", "Scripts": "{}", "ReadSizes": "{}", "ByteBudgets": "{}", "BlockBudgets": "{}",
+              "Offers": "{}", "Targets": "{}", "SReadSizes": "{}", "MaxSteps": 1000000, "MaxBlock": 131072, "Dev_F9": "FALSE", "ResetMode": '"any"'}
+    invs = ["Order", "Retain", "ConsumedOK", "NoFinishOnPrefix", "FinishedContent", "Bounded05"]
+    write_cfg(cfg, spec="TSpec", constants=consts, invariants=invs, postcondition="Accepted")
+    ok, info, res = trace_validate(ctx, mod, cfg, trace, "tv_frame_decoder", heap="-Xmx8g")
+    ctx.traces += rj["runs"]
+    ctx.evaluations += rj["events"]
+    cov = {k: rj[k] for k in ("frames", "skipped_frames", "runs", "events", "modes", "truncated_runs", "runs_on_a_reused_decoder")}
+    if ok:
+        cov["events_accepted"] = info["events"]
+        ctx.distinct += info["events"]
+    else:
+        recs = read_ndjson(trace)
+        at = info["rejected_at"] or 1
+        cov.update({"rejected_at": at, "record": info["record"], "invariant": info["invariant"]})
+        start = max([i for i in range(min(at, len(recs))) if recs[i]["ev"] in ("new", "reset")] or [0])
+        prefix = recs[start:at]
+        fname = frames[prefix[0]["i"] - 1]["name"] if prefix and "i" in prefix[0] else "?"
+        if info["invariant"]:
+            ctx.violation("recorded schedule on %s breaks %s at event %d: %s" % (fname, info["invariant"], at, json.dumps(prefix[-4:])[:900]),
+                          {"frame": fname, "trace_prefix": prefix, "invariant": info["invariant"]}, tag="fdtv")
+        else:
+            ctx.notes.append("drift (not a violation): the recorded schedule on %s leaves the as-built specification at event %d (%s); the properties "
+                             "held in every state up to there" % (fname, at, json.dumps(prefix[-2:])[:500]))
+            log("[drift] frame decoder trace rejected at %d" % at)
+    # binding self-test: one recorded value changed
+    recs = read_ndjson(trace)
+    cand = [i for i, r in enumerate(recs) if r.get("consumed", -1) > 0 and r["ev"] in ("decode", "sread", "from_to") and i > len(recs) // 3]
+    if ok and cand:
+        k = cand[0]
+        recs2 = [dict(r) for r in recs[:k + 1]]
+        recs2[k]["consumed"] += 1
+        t2 = ctx.path("fd_trace_corrupt.ndjson")
+        write_ndjson(t2, recs2)
+        ok2, info2, _ = trace_validate(ctx, mod, cfg, t2, "tv_frame_decoder_selftest", heap="-Xmx8g")
+        if ok2:
+            raise ToolError("self-test failed: a trace with a wrong consumed count at event %d is accepted" % (k + 1))
+        cov["binding_selftest"] = "trace with consumed+1 at event %d rejected at %s" % (k + 1, info2["rejected_at"])
+    ctx.cov["trace_validation_real_frames"] = cov
+    return rj
